@@ -35,11 +35,11 @@ Proof.
 Qed.
 
 (* ------------------------------------------------------------------ vnacal_new family *)
-Lemma check_add_classified : forall valid s a v r,
-  check_add valid s a = Refuse v r ->
+Lemma check_add_classified : forall s a v r,
+  check_add s a = Refuse v r ->
   v = VM1 /\ (r = Via USAGE \/ (r = Via MATH /\ aa_a a <> None /\ aa_a_singular a = true)).
 Proof.
-  intros valid s a v r. unfold check_add, usage1.
+  intros s a v r. unfold check_add, usage1.
   repeat match goal with
          | |- context [if ?b then _ else _] => destruct b eqn:?
          end; intro H; inversion H; subst; split; try reflexivity; try (left; reflexivity).
@@ -47,8 +47,8 @@ Proof.
   match goal with H : match aa_a a with _ => _ end = true |- _ => destruct (aa_a a); [split; [discriminate | exact H] | discriminate] end.
 Qed.
 
-Lemma new_fail_classified_l : forall valid h c v r,
-  check_new valid h c = Refuse v r ->
+Lemma new_fail_classified_l : forall h c v r,
+  check_new h c = Refuse v r ->
   v = VM1 /\
   callbacks r = match h with None => 0%nat | Some _ => 1%nat end /\
   match h with
@@ -56,7 +56,7 @@ Lemma new_fail_classified_l : forall valid h c v r,
   | Some _ => r = Via USAGE \/ new_math_refusal c r
   end.
 Proof.
-  intros valid h c v r. destruct h as [s|]; simpl.
+  intros h c v r. destruct h as [s|]; simpl.
   - destruct c; simpl.
     + unfold check_set_fv, usage1. destruct fv; ifs; intro H; inversion H; subst; repeat split; left; reflexivity.
     + discriminate.
@@ -75,13 +75,13 @@ Qed.
 
 (* errno classes: usage -> EINVAL; singular 'a' -> EDOM; a solve failure -> the class of the
    category the kernel reported (EDOM for VNAERR_MATH) *)
-Lemma new_errno_l : forall valid s c v r,
-  check_new valid (Some s) c = Refuse v r ->
+Lemma new_errno_l : forall s c v r,
+  check_new (Some s) c = Refuse v r ->
   actual_errno r = E_INVAL \/
   (actual_errno r = E_DOM /\ exists a, c = NAdd a) \/
   (exists k, c = NSolve (Some k) /\ actual_errno r = doc_errno k).
 Proof.
-  intros valid s c v r H. apply new_fail_classified_l in H. destruct H as [_ [_ [H|H]]].
+  intros s c v r H. apply new_fail_classified_l in H. destruct H as [_ [_ [H|H]]].
   - left. subst. reflexivity.
   - destruct c; simpl in H; try contradiction.
     + destruct r as [e|k]; [contradiction|]. destruct k; try contradiction. right. left. split; [reflexivity | eauto].
@@ -89,9 +89,9 @@ Proof.
       right. right. eexists. split; [reflexivity|]. simpl. apply errno_table_l.
 Qed.
 
-Lemma check_new_some_no_fault : forall valid s c, check_new_some valid s c <> Fault.
+Lemma check_new_some_no_fault : forall s c, check_new_some s c <> Fault.
 Proof.
-  intros valid s c. destruct c; simpl.
+  intros s c. destruct c; simpl.
   - unfold check_set_fv, usage1. destruct fv; ifs; discriminate.
   - discriminate.
   - unfold check_add, usage1. ifs; discriminate.
@@ -104,10 +104,10 @@ Proof.
 Qed.
 
 (* whatever _vnacal_new_add_common accepts has passed the validation of every parameter *)
-Lemma check_add_pass_validated : forall valid s a,
-  check_add valid s a = Pass -> forallb (check_parameter valid (v_params s)) (aa_cells a) = true.
+Lemma check_add_pass_validated : forall s a,
+  check_add s a = Pass -> forallb (check_parameter (v_params s)) (aa_cells a) = true.
 Proof.
-  intros valid s a H. unfold check_add, usage1 in H.
+  intros s a H. unfold check_add, usage1 in H.
   repeat match type of H with
          | (if ?b then _ else _) = Pass =>
              lazymatch b with
@@ -115,7 +115,7 @@ Proof.
              | _ => destruct b; [discriminate|]
              end
          end.
-  destruct (forallb (check_parameter valid (v_params s)) (aa_cells a)); [reflexivity | discriminate].
+  destruct (forallb (check_parameter (v_params s)) (aa_cells a)); [reflexivity | discriminate].
 Qed.
 
 (* as found: the argument checks of every function of the family precede its first write *)
@@ -124,11 +124,10 @@ Proof. intro c. destruct c; reflexivity. Qed.
 
 Section NewStepProofs.
   Variable payload : Type.
-  Variable valid unknown : Z -> bool.
   Variable work : nobj payload -> ncall -> nobj payload.
   Variable pre : nobj payload -> nobj payload.
-  Let nrun := new_run payload valid unknown work pre.
-  Let nstep := new_step payload valid unknown work pre.
+  Let nrun := new_run payload work pre.
+  Let nstep := new_step payload work pre.
 
   (* for every function whose generated order has the argument checks before the first write: a call
      refused by an argument check leaves the object - summary, registered parameters, rest - equal *)
@@ -144,35 +143,35 @@ Section NewStepProofs.
      argument checks precede the first write, EVERY refusal of an add - usage, singular 'a', incomplete
      S - leaves the whole modelled object as it was, and no refusal comes from the registration *)
   Lemma rejected_standard_adds_nothing_l : forall o a v r,
-    gen_add_common_prevalidates = true -> ncall_ordered (NAdd a) = true ->
+    gen_add_common_prevalidates = true -> gen_check_parameter_recurses = true -> ncall_ordered (NAdd a) = true ->
     snd (nstep o (NAdd a)) = Refuse v r ->
     fst (nstep o (NAdd a)) = o /\ exists v' r', nrun o (NAdd a) = (o, MRefused v' r').
   Proof.
-    intros o a v r G H. unfold nstep, new_step. fold (nrun o (NAdd a)).
+    intros o a v r G GR H. unfold nstep, new_step. fold (nrun o (NAdd a)).
     unfold nrun, new_run, new_body. rewrite H, two_phase_run. unfold arg_check, new_work. cbn [check_new_some].
-    pose proof (check_new_some_no_fault valid (no_sum payload o) (NAdd a)) as NF. cbn [check_new_some] in NF.
-    destruct (check_add valid (no_sum payload o) a) as [|v1 r1|] eqn:E; [|simpl; intros _; split; [reflexivity | eauto] | contradiction].
-    pose proof (validated_standard_accepted_l valid unknown _ _ G (check_add_pass_validated _ _ _ E)) as P.
-    destruct (add_standard_current valid unknown (v_params (no_sum payload o)) (aa_cells a)) as [p' oc].
+    pose proof (check_new_some_no_fault (no_sum payload o) (NAdd a)) as NF. cbn [check_new_some] in NF.
+    destruct (check_add (no_sum payload o) a) as [|v1 r1|] eqn:E; [|simpl; intros _; split; [reflexivity | eauto] | contradiction].
+    pose proof (validated_standard_accepted_l _ _ G GR (check_add_pass_validated _ _ E)) as P.
+    destruct (add_standard_current (v_params (no_sum payload o)) (aa_cells a)) as [p' oc].
     simpl in P. subst oc. simpl. discriminate.
   Qed.
 
   (* link to the decision function *)
   Lemma new_step_outcome_l : forall o c,
-    gen_add_common_prevalidates = true -> ncall_ordered c = true ->
-    snd (nstep o c) = check_new_some valid (no_sum payload o) c.
+    gen_add_common_prevalidates = true -> gen_check_parameter_recurses = true -> ncall_ordered c = true ->
+    snd (nstep o c) = check_new_some (no_sum payload o) c.
   Proof.
-    intros o c G H. unfold nstep, new_step. fold (nrun o c). unfold nrun, new_run, new_body. rewrite H, two_phase_run.
-    pose proof (check_new_some_no_fault valid (no_sum payload o) c) as NF.
+    intros o c G GR H. unfold nstep, new_step. fold (nrun o c). unfold nrun, new_run, new_body. rewrite H, two_phase_run.
+    pose proof (check_new_some_no_fault (no_sum payload o) c) as NF.
     destruct c as [fv rb| |a|e lo hi n fv nf tr s16|x|x|x|n|kernel]; unfold arg_check, new_work; cbn [check_new_some] in *.
     1, 2, 4, 5, 6, 7, 8:
       try reflexivity;
       match goal with |- context [match ?x with Pass => _ | Refuse _ _ => _ | Fault => _ end] =>
         destruct x as [|v1 r1|]; [reflexivity | reflexivity | contradiction] end.
     - (* add *)
-      destruct (check_add valid (no_sum payload o) a) as [|v1 r1|] eqn:E; [|reflexivity | contradiction].
-      pose proof (validated_standard_accepted_l valid unknown _ _ G (check_add_pass_validated _ _ _ E)) as P.
-      destruct (add_standard_current valid unknown (v_params (no_sum payload o)) (aa_cells a)) as [p' oc].
+      destruct (check_add (no_sum payload o) a) as [|v1 r1|] eqn:E; [|reflexivity | contradiction].
+      pose proof (validated_standard_accepted_l _ _ G GR (check_add_pass_validated _ _ E)) as P.
+      destruct (add_standard_current (v_params (no_sum payload o)) (aa_cells a)) as [p' oc].
       simpl in P. subst oc. reflexivity.
     - (* solve *)
       unfold check_solve, usage1. destruct (negb (v_fvalid (no_sum payload o))); [reflexivity|].
@@ -274,14 +273,14 @@ Proof.
     + intros q [Hq|Hq]; [subst; exact Hp|]. intro Hs. apply (D q Hq). right. exact Hs.
 Qed.
 
-Lemma add_accepts_only_valid_map_l : forall valid s a m,
-  check_add valid s a = Pass -> aa_map a = Some m -> 1 <= v_ports s ->
+Lemma add_accepts_only_valid_map_l : forall s a m,
+  check_add s a = Pass -> aa_map a = Some m -> 1 <= v_ports s ->
   NoDup m /\ Forall (fun p => 1 <= p <= v_ports s) m /\
   1 <= aa_s_rows a <= v_ports s /\ 1 <= aa_s_cols a <= v_ports s /\
   aa_b_rows a <= v_rows s /\ aa_b_cols a <= v_cols s /\
-  forallb (check_parameter valid (v_params s)) (aa_cells a) = true.
+  forallb (check_parameter (v_params s)) (aa_cells a) = true.
 Proof.
-  intros valid s a m. unfold check_add, usage1. intros H Hm HP. rewrite Hm in H.
+  intros s a m. unfold check_add, usage1. intros H Hm HP. rewrite Hm in H.
   destruct (aa_b_null a); [discriminate|].
   destruct ((aa_s_rows a <? 1) || (aa_s_rows a >? v_ports s)) eqn:A1; [discriminate|].
   destruct ((aa_s_cols a <? 1) || (aa_s_cols a >? v_ports s)) eqn:A2; [discriminate|].
@@ -304,7 +303,7 @@ Proof.
              end
          end.
   destruct (scan_map (v_ports s) m [] 0) eqn:S; [discriminate|].
-  destruct (forallb (check_parameter valid (v_params s)) (aa_cells a)) eqn:C; [|discriminate].
+  destruct (forallb (check_parameter (v_params s)) (aa_cells a)) eqn:C; [|discriminate].
   apply scan_map_sound in S; [|lia]. destruct S as [ND [F _]].
   apply orb_false_iff in A1, A2, A3. destruct A1 as [a1 a2], A2 as [a3 a4], A3 as [a5 a6].
   rewrite Z.gtb_ltb in a2, a4, a5, a6.
@@ -482,29 +481,39 @@ Lemma cleanup_sites_l : map fst gen_cleanup_calls =
 Proof. vm_compute. reflexivity. Qed.
 
 (* ------------------------------------------------------------------ examples *)
+Definition ex_cells (hs : list Z) : list pchain := map (flat_cell (fun h => (0 <=? h) && (h <=? 5)) (fun h => h =? 5)) hs.
+Definition ex_new0 : newsum := mknew [0] 0 0 0 None.
+
 Example new_examples :
   check_new_alloc T8 2 1 3 = Refuse VNULL (Via USAGE) /\
   check_new_alloc E12 2 1 3 = Pass /\
-  check_set_fv (mknsum T8 2 2 3 false false (mknew [0] 0 0)) (Some [Some 1%Q; Some 3%Q; Some 2%Q]) false
+  check_set_fv (mknsum T8 2 2 3 false false ex_new0) (Some [Some 1%Q; Some 3%Q; Some 2%Q]) false
     = Refuse VM1 (Via USAGE) /\
-  check_set_fv (mknsum T8 2 2 3 false false (mknew [0] 0 0)) (Some [Some 1%Q; None; Some 2%Q]) false
+  check_set_fv (mknsum T8 2 2 3 false false ex_new0) (Some [Some 1%Q; None; Some 2%Q]) false
     = Refuse VM1 (Via USAGE) /\
-  check_set_fv (mknsum T8 2 2 3 false false (mknew [0] 0 0)) (Some [Some 1%Q; Some 2%Q; Some 3%Q]) false = Pass /\
+  check_set_fv (mknsum T8 2 2 3 false false ex_new0) (Some [Some 1%Q; Some 2%Q; Some 3%Q]) false = Pass /\
   (* double reflect on ports 1, 1 *)
-  check_add (fun h => (0 <=? h) && (h <=? 5)) (mknsum T8 2 2 3 true false (mknew [0] 0 0))
-    (mkadd false None 2 2 2 2 (Some [1; 1]) [2; 1] false false) = Refuse VM1 (Via USAGE) /\
+  check_add (mknsum T8 2 2 3 true false ex_new0)
+    (mkadd false None 2 2 2 2 (Some [1; 1]) (ex_cells [2; 1]) false false) = Refuse VM1 (Via USAGE) /\
   (* an m matrix larger than the calibration (D48) *)
-  check_add (fun h => (0 <=? h) && (h <=? 5)) (mknsum T16 2 2 3 true false (mknew [0] 0 0))
-    (mkadd false None 3 2 2 2 (Some [1; 2]) [2; 0; 0; 1] false false) = Refuse VM1 (Via USAGE) /\
+  check_add (mknsum T16 2 2 3 true false ex_new0)
+    (mkadd false None 3 2 2 2 (Some [1; 2]) (ex_cells [2; 0; 0; 1]) false false) = Refuse VM1 (Via USAGE) /\
   (* unknown parameter then invalid handle (D17): refused by the validation pass *)
-  check_add (fun h => (0 <=? h) && (h <=? 5)) (mknsum T8 2 2 3 true false (mknew [0] 0 0))
-    (mkadd false None 2 2 2 2 (Some [1; 2]) [5; 99] false false) = Refuse VM1 (Via USAGE) /\
-  check_add (fun h => (0 <=? h) && (h <=? 5)) (mknsum T8 2 2 3 true false (mknew [0] 0 0))
-    (mkadd false None 2 2 2 2 (Some [2; 1]) [2; 1] false false) = Pass /\
-  check_add (fun h => (0 <=? h) && (h <=? 5)) (mknsum UE14 2 2 3 true false (mknew [0] 0 0))
-    (mkadd false (Some (1, 2)) 2 2 2 2 (Some [1; 2]) [2; 1] true false) = Refuse VM1 (Via MATH) /\
-  check_solve (mknsum T8 2 2 3 false false (mknew [0] 0 0)) None = Refuse VM1 (Via USAGE) /\
-  check_solve (mknsum T8 2 2 3 true false (mknew [0] 0 0)) (Some MATH) = Refuse VM1 (Via MATH).
+  check_add (mknsum T8 2 2 3 true false ex_new0)
+    (mkadd false None 2 2 2 2 (Some [1; 2]) (ex_cells [5; 99]) false false) = Refuse VM1 (Via USAGE) /\
+  (* unknown parameter then a correlated parameter whose correlate is too narrow / deleted (seeded C11-4) *)
+  check_add (mknsum T8 2 2 3 true false ex_s0)
+    (mkadd false None 2 2 2 2 (Some [1; 2]) [ex_u5; ex_c7_narrow] false false) = Refuse VM1 (Via USAGE) /\
+  check_add (mknsum T8 2 2 3 true false ex_s0)
+    (mkadd false None 2 2 2 2 (Some [1; 2]) [ex_u5; ex_c9_deleted] false false) = Refuse VM1 (Via USAGE) /\
+  check_add (mknsum T8 2 2 3 true false ex_s0)
+    (mkadd false None 2 2 2 2 (Some [1; 2]) [ex_u5; ex_c11_good] false false) = Pass /\
+  check_add (mknsum T8 2 2 3 true false ex_new0)
+    (mkadd false None 2 2 2 2 (Some [2; 1]) (ex_cells [2; 1]) false false) = Pass /\
+  check_add (mknsum UE14 2 2 3 true false ex_new0)
+    (mkadd false (Some (1, 2)) 2 2 2 2 (Some [1; 2]) (ex_cells [2; 1]) true false) = Refuse VM1 (Via MATH) /\
+  check_solve (mknsum T8 2 2 3 false false ex_new0) None = Refuse VM1 (Via USAGE) /\
+  check_solve (mknsum T8 2 2 3 true false ex_new0) (Some MATH) = Refuse VM1 (Via MATH).
 Proof. repeat split; vm_compute; reflexivity. Qed.
 
 Example param_examples :
